@@ -1,13 +1,217 @@
 /- WS.Driver.OpsCore — ops of the byte-level layers (L0–L3): UTF-8, frames, parser, loop, conn. -/
 import WS.Driver.Util
 import WS.Spec.Unicode
+import WS.Spec.Rfc6455
 import WS.Model.Utf8
+import WS.Model.Frame
+import WS.Model.Conn
 namespace WS.Driver.Core
-open WS WS.Driver
+open WS WS.Driver WS.Model
+
+def exnOut (e : Exn) : String := "X:" ++ e.toStr
+
+/-! ### session: a scripted socket and a sequence of API calls -/
+
+def parseOptNat (s : String) : Option (Option Nat) :=
+  if s == "none" then some none else s.toNat?.map some
+
+def parseInt (s : String) : Option Int :=
+  if s.startsWith "-" then (s.drop 1).toString.toNat?.map (fun n => - (n : Int))
+  else s.toNat?.map (fun n => (n : Int))
+
+def parseEvents (s : String) : Option (List TEv) :=
+  if s == "-" then some [] else
+  (s.splitOn "|").mapM fun e =>
+    if e == "t" then some .timeout
+    else if e == "e" then some .eof
+    else if e == "r" then some .reset
+    else if e.startsWith "c:" then (parseBytes (e.drop 2).toString).map .chunk
+    else if e.startsWith "w:" then ((e.drop 2).toString.toNat?).map .wait
+    else none
+
+structure Cfg where
+  fire : Bool := false
+  skip : Bool := false
+  tail : Tail := .eof
+  accepts : List Nat := []
+  keys : List Bytes := []
+  timeoutMs : Option Nat := none
+  sendFailAt : Option Nat := none
+  connected : Bool := true
+
+def parseCfg (s : String) : Option Cfg :=
+  if s == "-" then some {} else
+  (s.splitOn ",").foldlM (init := ({} : Cfg)) fun cfg kv =>
+    match kv.splitOn "=" with
+    | ["fire", v] => some { cfg with fire := v == "1" }
+    | ["skip", v] => some { cfg with skip := v == "1" }
+    | ["conn", v] => some { cfg with connected := v == "1" }
+    | ["tail", v] => some { cfg with tail := if v == "timeout" then .timeout else .eof }
+    | ["acc", v] => if v == "-" then some cfg else ((v.splitOn ".").mapM String.toNat?).map fun a => { cfg with accepts := a }
+    | ["keys", v] => if v == "-" then some cfg else ((v.splitOn ".").mapM parseBytes).map fun k => { cfg with keys := k }
+    | ["to", v] => (parseOptNat v).map fun t => { cfg with timeoutMs := t }
+    | ["fail", v] => (parseOptNat v).map fun t => { cfg with sendFailAt := t }
+    | _ => none
+
+def mkConn (cfg : Cfg) (evs : List TEv) : Conn :=
+  { sock := { inp := evs, tail := cfg.tail, accepts := cfg.accepts, sendFailAt := cfg.sendFailAt,
+              timeoutMs := cfg.timeoutMs },
+    connected := cfg.connected, fireCont := cfg.fire, skipUtf8 := cfg.skip, keys := cfg.keys }
+
+def frameOut (f : Frame) : String :=
+  s!"F:{f.opcode}:{f.fin}:{f.rsv1}{f.rsv2}{f.rsv3}:{summarize f.data}"
+
+/-- run one API call; returns the rendered result and the new state. -/
+def runOp (c : Conn) (op : String) : Option (String × Conn) :=
+  match op.splitOn ":" with
+  | ["recv"] =>
+    match c.recv with
+    | (.ok (.text d), c) => some ("T:" ++ summarize d, c)
+    | (.ok (.binary d), c) => some ("B:" ++ summarize d, c)
+    | (.ok .emptyStr, c) => some ("E", c)
+    | (.error e, c) => some (exnOut e, c)
+  | ["recvdata", cf] =>
+    match c.recvData (cf == "1") with
+    | (.ok (op, d), c) => some (s!"D:{op}:{summarize d}", c)
+    | (.error e, c) => some (exnOut e, c)
+  | ["rdf", cf] =>
+    match c.recvDataFrame (cf == "1") with
+    | (.ok (op, f), c) => some (s!"R:{op}:{f.fin}:{summarize f.data}", c)
+    | (.error e, c) => some (exnOut e, c)
+  | ["rf"] =>
+    match c.recvFrame with
+    | (.ok f, c) => some (frameOut f, c)
+    | (.error e, c) => some (exnOut e, c)
+  | "send" :: op :: ps => do
+    let op ← op.toNat?
+    let p ← parseBytes (String.intercalate ":" ps)
+    match c.send p op with
+    | (.ok n, c) => some (s!"N:{n}", c)
+    | (.error e, c) => some (exnOut e, c)
+  | "sendf" :: fin :: op :: ps => do
+    let fin ← fin.toNat?
+    let op ← op.toNat?
+    let p ← parseBytes (String.intercalate ":" ps)
+    match c.sendFrame (createFrame p op fin) with
+    | (.ok n, c) => some (s!"N:{n}", c)
+    | (.error e, c) => some (exnOut e, c)
+  | "ping" :: ps => do
+    let p ← parseBytes (String.intercalate ":" ps)
+    match c.ping p with
+    | (.ok _, c) => some ("ok", c)
+    | (.error e, c) => some (exnOut e, c)
+  | "pong" :: ps => do
+    let p ← parseBytes (String.intercalate ":" ps)
+    match c.pong p with
+    | (.ok _, c) => some ("ok", c)
+    | (.error e, c) => some (exnOut e, c)
+  | ["sclose", st, r] => do
+    let st ← parseInt st
+    let r ← parseBytes r
+    match c.sendClose st r with
+    | (.ok _, c) => some ("ok", c)
+    | (.error e, c) => some (exnOut e, c)
+  | ["close", st, r, t] => do
+    let st ← parseInt st
+    let r ← parseBytes r
+    let t ← parseOptNat t
+    match c.close st r t with
+    | (none, c) => some ("ok", c)
+    | (some e, c) => some (exnOut e, c)
+  | ["shutdown"] => some ("ok", c.shutdown)
+  | ["abort"] =>
+    match c.abort with
+    | (none, c) => some ("ok", c)
+    | (some e, c) => some (exnOut e, c)
+  | ["settimeout", t] => do
+    let t ← parseOptNat t
+    some ("ok", { c with sock := { c.sock with timeoutMs := t } })
+  | _ => none
+
+def stateOut (c : Conn) (wireBefore : Nat) : String :=
+  let w := c.sock.wire
+  s!"{b2s c.connected}{b2s c.hasSock}{b2s c.sock.closed}|{c.sock.calls}|{c.sock.clock}|{summarize (w.drop wireBefore)}"
+
+def runSession (c : Conn) (ops : List String) : Option (List String) :=
+  match ops with
+  | [] => some [s!"END|keys={c.keyDraws}|maxrecv={c.sock.recvSizes.foldl max 0}|left={c.sock.inp.length}|buf={c.buf.length}"]
+  | op :: rest =>
+    let before := c.sock.wire.length
+    match runOp c op with
+    | none => none
+    | some (r, c) => (runSession c rest).map fun tl => (r ++ "|" ++ stateOut c before) :: tl
+
+def sessionOp (cfg evs ops : String) : Option String := do
+  let cfg ← parseCfg cfg
+  let evs ← parseEvents evs
+  let c := mkConn cfg evs
+  let outs ← runSession c (if ops == "-" then [] else ops.splitOn "|")
+  some (String.intercalate ";" outs)
+
+/-! ### unit ops -/
+
+def wireOut (d : Spec.Decode) : String :=
+  match d with
+  | .needMore => "needMore"
+  | .frame f rest =>
+    s!"{f.fin}:{f.rsv1}{f.rsv2}{f.rsv3}:{f.opcode}:{b2s f.masked}:{bytesOut f.key}:{f.lenForm}:{summarize f.payload}:{rest.length}"
+
+/-- decode a whole stream into frames with the Spec decoder: `n` frames then the undecodable rest. -/
+def specDecodeAll : Nat → Bytes → List String → List String
+  | 0, _, acc => acc.reverse
+  | fuel + 1, bs, acc =>
+    match Spec.decode bs with
+    | .needMore => (s!"rest={bs.length}" :: acc).reverse
+    | .frame f rest =>
+      specDecodeAll fuel rest
+        (s!"{f.fin}:{f.rsv1}{f.rsv2}{f.rsv3}:{f.opcode}:{b2s f.masked}:{bytesOut f.key}:{f.lenForm}:{summarize f.payload}" :: acc)
 
 def ops : List String → Option String
   | ["m-utf8", h] => (parseBytes h).map (fun bs => b2s (Model.validateUtf8 bs))
   | ["s-utf8", h] => (parseBytes h).map (fun bs => b2s (Spec.wellFormed bs))
+  | ["m-session", cfg, evs, o] => sessionOp cfg evs o
+  | ["m-mask", k, d] => do
+    let k ← parseBytes k
+    let d ← parseBytes d
+    some (summarize (Model.mask k d))
+  | ["m-mask-big", k, d] => do
+    let k ← parseBytes k
+    let d ← parseBytes d
+    some (summarize (Model.maskBig k d))
+  | ["m-format", fin, r1, r2, r3, op, m, key, p] => do
+    let fin ← fin.toNat?
+    let r1 ← r1.toNat?
+    let r2 ← r2.toNat?
+    let r3 ← r3.toNat?
+    let op ← op.toNat?
+    let m ← m.toNat?
+    let key ← parseBytes key
+    let p ← parseBytes p
+    match Model.format { fin := fin, rsv1 := r1, rsv2 := r2, rsv3 := r3, opcode := op, mask := m, data := p } key with
+    | .ok w => some (summarize w)
+    | .error e => some (exnOut e)
+  | ["m-validate", fin, r1, r2, r3, op, skip, p] => do
+    let fin ← fin.toNat?
+    let r1 ← r1.toNat?
+    let r2 ← r2.toNat?
+    let r3 ← r3.toNat?
+    let op ← op.toNat?
+    let p ← parseBytes p
+    match Model.validate { fin := fin, rsv1 := r1, rsv2 := r2, rsv3 := r3, opcode := op, mask := 0, data := p } (skip == "1") with
+    | none => some "ok"
+    | some e => some (exnOut e)
+  | ["m-close-code", n] => n.toNat?.map (fun n => b2s (Model.isValidCloseStatus n))
+  | ["s-close-code", n] => n.toNat?.map (fun n => b2s (Spec.wireCode n))
+  | ["s-decode", w] => (parseBytes w).map (fun w => wireOut (Spec.decode w))
+  | ["s-decode-all", w] => (parseBytes w).map (fun w => String.intercalate ";" (specDecodeAll (w.length + 1) w []))
+  | ["s-frame-legal", inmsg, fin, r1, r2, r3, op, p] => do
+    let fin ← fin.toNat?
+    let r1 ← r1.toNat?
+    let r2 ← r2.toNat?
+    let r3 ← r3.toNat?
+    let op ← op.toNat?
+    let p ← parseBytes p
+    some (b2s (Spec.frameLegal (inmsg == "1") fin r1 r2 r3 op p))
   | _ => none
 
 end WS.Driver.Core
